@@ -132,6 +132,10 @@ class SymMap:
                     e[1] = ABSENT
                 me.log.append(('clear',))
             return BoundBuiltin('dict.clear', clear, self)
+        if name == 'items':
+            return BoundBuiltin('dict.items', lambda ex, me: MapItems(me), self)
+        if name == 'keys':
+            return BoundBuiltin('dict.keys', lambda ex, me: MapKeys(me), self)
         return None
 
     def sym_sorted(self, ex):
@@ -148,6 +152,40 @@ class SymMap:
 
 
 class SortedKeys:
+    def __init__(self, m):
+        self.map = m
+
+
+class MapKeys:
+    """M.keys() of a symbolic map (only sorted() of it is modelled)."""
+    def __init__(self, m):
+        self.map = m
+
+    def sym_sorted(self, ex, key=None):
+        if key is not None:
+            raise Unsupported('sorted(keys, key=...) of a symbolic map')
+        return SortedKeys(self.map)
+
+
+class MapItems:
+    """M.items() of a symbolic map (only sorted() by key is modelled)."""
+    def __init__(self, m):
+        self.map = m
+
+    def sym_sorted(self, ex, key=None):
+        if key is not None:
+            # the key function must order the items by their key: probed with a marker pair
+            probe_k, probe_v = object(), object()
+            try:
+                r = ex.call(key, [(probe_k, probe_v)], {}, None)
+            except Exception:  # noqa
+                r = None
+            if r is not probe_k and not (isinstance(r, tuple) and r and r[0] is probe_k):
+                raise Unsupported('sorted(M.items(), key=f) where f is not the item key')
+        return SortedItems(self.map)      # the keys are distinct: ordering by (key, value) is ordering by key
+
+
+class SortedItems:
     def __init__(self, m):
         self.map = m
 
